@@ -1,5 +1,6 @@
 """C09 -- no peer can crash, hang or fool the auditor (structural clauses)."""
 import ast
+import re
 
 from sa.core import AnalysisError, unparse, walk_no_nested, stmt_text, call_name, bind_args, attr_chain, func_id, get_kw
 from sa.logic import path_condition
@@ -10,7 +11,7 @@ from sa.escape import EscapeAnalysis, Site, enclosing
 EXPL = ('Decides structurally: (a) crash clause -- a least-fixed-point exception-escape analysis over the resolved call graph (explicit raise / sys.exit, a repo-specific table of partial operations on peer-derived data: '
         'struct.unpack, int(x, 16), strict decode, ord() of a slice, constant index into peer bytes, randrange over a peer-chosen range, max()/min() of a possibly empty sequence, rindex, table subscripts by peer names) computes which exception '
         'classes can leave audit(); anything but SystemExit(CONNECTION_ERROR) on single-target paths is reported with its originating site and a call chain; (b) fool clause -- probe results never feed audit()\'s status (probe calls are bare '
-        'statements, probes return None), the malformed-handshake clause is C02 rule incomplete; (c) hang clause, structural part -- every socket created on the audit path gets a finite timeout or is non-blocking before it is used, select() carries a timeout, '
+        'statements, probes return None), the malformed-handshake clause is C02 rule incomplete; packet framing -- on every path through SSH_Socket.read_packet each consuming socket read is covered by a preceding ensure_read (symbolic linear byte budget), so no byte of a packet is left in the stream to be taken for the next header; (c) hang clause, structural part -- every socket created on the audit path gets a finite timeout or is non-blocking before it is used, select() carries a timeout, '
         'and every loop in the network modules is classified (finite collection / grows-to-constant / deadline / buffer drain / peer-driven); a peer-driven loop without a counter or deadline is reported. '
         'Not decided: the numeric wall-clock bound and memory growth.')
 
@@ -135,44 +136,139 @@ def run(repo, rep, tier):
         if tier == 'thorough':
             return False
         return fid in EXPLICIT or (fid.startswith('dheat:') and fid not in ('dheat:DHEat.dh_rate_test', 'dheat:DHEat._dh_rate_test', 'dheat:DHEat._resolve_hostname', 'dheat:DHEat._dh_rate_test._close_socket'))
-    NEED = {'read_int': 4, 'read_byte': 1}
+    # ---- fool clause: packet framing (read budget) ------------------------------------------------------------------------------
+    # ReadBuf.read(n) silently returns fewer bytes when fewer are buffered; bytes of the current packet left in the
+    # stream are taken for the next packet's header, which ends a well-formed peer's audit with "invalid ssh packet"
+    # and no report.  So on every path through read_packet every consuming read on the socket must be covered by a
+    # preceding ensure_read: symbolic budget (linear form over the function's length variables), ensure_read(E) raises
+    # it to E, a read of k lowers it by k and must leave it provably non-negative.
+    rp = repo.func('ssh_socket', 'SSH_Socket.read_packet')
+    rep.saw(rp)
+    READ_COST = {'read_byte': 1, 'read_bool': 1, 'read_int': 4}
+
+    def linear(node, dec=None):
+        """node -> ({term text: coeff}, const) for +,- over names/constants; anything else is one opaque term."""
+        if isinstance(node, ast.IfExp) and dec is not None and unparse(node.test) in dec:
+            return linear(node.body if dec[unparse(node.test)] else node.orelse, dec)
+        if isinstance(node, ast.Constant) and isinstance(node.value, int):
+            return {}, node.value
+        if isinstance(node, ast.BinOp) and isinstance(node.op, (ast.Add, ast.Sub)):
+            a, ca = linear(node.left, dec)
+            b, cb = linear(node.right, dec)
+            sgn = 1 if isinstance(node.op, ast.Add) else -1
+            out = dict(a)
+            for k, v in b.items():
+                out[k] = out.get(k, 0) + sgn * v
+            return {k: v for k, v in out.items() if v != 0}, ca + sgn * cb
+        if isinstance(node, ast.UnaryOp) and isinstance(node.op, ast.USub):
+            a, ca = linear(node.operand, dec)
+            return {k: -v for k, v in a.items()}, -ca
+        return {unparse(node): 1}, 0
+
+    def sub(x, y):
+        out = dict(x[0])
+        for k, v in y[0].items():
+            out[k] = out.get(k, 0) - v
+        return {k: v for k, v in out.items() if v != 0}, x[1] - y[1]
+
+    def nonneg(x):
+        return all(v > 0 for v in x[0].values()) and x[1] >= 0
+    framing = {'paths': 0, 'reads': 0, 'bad': [], 'covered': set()}
+
+    def socket_reads(st):
+        """consuming reads / ensure_read calls on self in evaluation order inside one simple statement"""
+        out = []
+        for n in ast.walk(st):
+            if isinstance(n, ast.Call) and isinstance(n.func, ast.Attribute) and unparse(n.func.value) == 'self':
+                if n.func.attr == 'ensure_read' and n.args:
+                    out.append(('ensure', n.args[0], n))
+                elif n.func.attr == 'read' and n.args:
+                    out.append(('read', n.args[0], n))
+                elif n.func.attr in READ_COST:
+                    out.append(('read', ast.Constant(value=READ_COST[n.func.attr]), n))
+                elif n.func.attr in ('read_string', 'read_list', 'read_mpint1', 'read_mpint2', 'read_line'):
+                    out.append(('unbounded', None, n))
+        out.sort(key=lambda t: (t[2].lineno, t[2].col_offset))
+        return out
+
+    def walk_path(stmts, budget, decisions, depth=0):
+        """returns list of (budget, decisions) for fall-through paths"""
+        states = [(budget, decisions)]
+        for st in stmts:
+            nxt = []
+            for bud, dec in states:
+                if isinstance(st, ast.If):
+                    t = unparse(st.test)
+                    for pol, blk in ((True, st.body), (False, st.orelse)):
+                        if t in dec and dec[t] != pol:
+                            continue
+                        d2 = dict(dec)
+                        d2[t] = pol
+                        # reads in the test itself
+                        b2 = bud
+                        nxt.extend(walk_path(blk, b2, d2, depth + 1))
+                    continue
+                if isinstance(st, (ast.Raise, ast.Return)):
+                    framing['paths'] += 1
+                    for kind, amount, n in socket_reads(st):
+                        if kind != 'ensure':
+                            raise AnalysisError('read_packet: socket read inside a return/raise statement')
+                    continue
+                if isinstance(st, ast.Expr) and isinstance(st.value, ast.Call) and unparse(st.value.func) == 'sys.exit':
+                    framing['paths'] += 1
+                    continue
+                if isinstance(st, (ast.For, ast.While, ast.Try, ast.With)):
+                    if socket_reads(st):
+                        raise AnalysisError('read_packet: socket read inside a compound statement (%s) -- budget walk does not model it' % stmt_text(st)[:50])
+                    nxt.append((bud, dec))
+                    continue
+                for kind, amount, n in socket_reads(st):
+                    if kind == 'ensure':
+                        bud = linear(amount, dec)
+                    elif kind == 'unbounded':
+                        framing['bad'].append((n, 'variable-length read %s on the socket without a covering ensure_read' % unparse(n)[:40]))
+                    else:
+                        framing['reads'] += 1
+                        if unparse(amount) == 'self.unread_len':
+                            bud = ({}, 0)
+                            continue
+                        amt = linear(amount, dec)
+                        if amt[1] < 0:
+                            # read(t - c) must not be handed a negative size (ReadBuf.read(-1) drains the buffer): needs the guard t >= c on this path
+                            okneg = len(amt[0]) == 1 and list(amt[0].values()) == [1] and any(
+                                (re.fullmatch(re.escape(list(amt[0])[0]) + r' < (\d+)', k) and v is False and int(k.rsplit(' ', 1)[1]) >= -amt[1]) or
+                                (re.fullmatch(re.escape(list(amt[0])[0]) + r' >= (\d+)', k) and v is True and int(k.rsplit(' ', 1)[1]) >= -amt[1]) for k, v in dec.items())
+                            if not okneg:
+                                framing['bad'].append((n, 'read of %s byte(s), which is negative for small peer-chosen lengths (no guard on this path)' % unparse(amount)))
+                        left = sub(bud, amt)
+                        framing['covered'].add(id(n))
+                        if not nonneg(left):
+                            framing['bad'].append((n, 'read of %s byte(s) with only %s ensured on a path where %s' % (unparse(amount), ' + '.join(['%s*%s' % (v, k) for k, v in bud[0].items()] + [str(bud[1])]), ' and '.join(('%s' if v else 'not (%s)') % k for k, v in dec.items()) or 'always')))
+                            left = ({}, 0)
+                        bud = left
+                # assignment to a name the budget mentions invalidates the symbolic relation
+                if isinstance(st, (ast.Assign, ast.AugAssign, ast.AnnAssign)):
+                    tgts = st.targets if isinstance(st, ast.Assign) else [st.target]
+                    names = {x.id for t in tgts for x in ast.walk(t) if isinstance(x, ast.Name)}
+                    if any(isinstance(x, ast.Name) and x.id in names for k in bud[0] for x in ast.walk(ast.parse(k, mode='eval'))):
+                        raise AnalysisError('read_packet: %s reassigns a length that an outstanding ensure_read was computed from' % stmt_text(st)[:60])
+                    dec = {k: v for k, v in dec.items() if not any(isinstance(x, ast.Name) and x.id in names for x in ast.walk(ast.parse(k, mode='eval')))}
+                nxt.append((bud, dec))
+            states = nxt
+        return states
+    trys = [n for n in rp.body if isinstance(n, ast.Try)]
+    if len(trys) != 1 or len(rp.body) != 1:
+        raise AnalysisError('read_packet: expected a single try statement as body')
+    walk_path(trys[0].body, ({}, 0), {})
+    for h in trys[0].handlers:
+        walk_path(h.body, ({}, 0), {})
+    uncovered = {id(n) for n, msg in framing['bad']}
 
     def edge_filter(f, call, callee, site):
-        # `self.ensure_read(n)` immediately dominating `self.read_int()/read_byte()` establishes the length struct.unpack needs
-        if site.exc != 'struct.error' or callee.name not in NEED or not isinstance(call, ast.Call):
+        # struct.unpack inside read_int/read_byte cannot come up short when the call is covered by the read budget established above
+        if site.exc != 'struct.error' or callee.name not in READ_COST or not isinstance(call, ast.Call) or f is not rp:
             return False
-        st = enclosing(call)
-        par = getattr(st, '_parent', None)
-        for fld in ('body', 'orelse'):
-            blk = getattr(par, fld, None)
-            if isinstance(blk, list) and st in blk:
-                i = blk.index(st)
-                if i > 0:
-                    prev = blk[i - 1]
-                    if isinstance(prev, ast.Expr) and isinstance(prev.value, ast.Call) and unparse(prev.value.func) == 'self.ensure_read' and prev.value.args and isinstance(prev.value.args[0], ast.Constant) and prev.value.args[0].value >= NEED[callee.name]:
-                        return True
-        # self.ensure_read(N) ... X = self.read(N - 4); crc = self.read_int()  under the guard N >= 5: four bytes are left for read_int
-        if callee.name == 'read_int':
-            for fld in ('body', 'orelse'):
-                blk = getattr(par, fld, None)
-                if isinstance(blk, list) and st in blk and blk.index(st) > 0:
-                    prev = None
-                    for cand in reversed(blk[:blk.index(st)]):
-                        reads = [x for x in ast.walk(cand) if isinstance(x, ast.Call) and isinstance(x.func, ast.Attribute) and unparse(x.func.value) == 'self' and (x.func.attr.startswith('read') or x.func.attr == 'ensure_read')]
-                        if reads:
-                            prev = cand
-                            break
-                    if prev is None:
-                        continue
-                    if isinstance(prev, ast.Assign) and isinstance(prev.value, ast.Call) and unparse(prev.value.func) == 'self.read' and isinstance(prev.value.args[0], ast.BinOp) and isinstance(prev.value.args[0].op, ast.Sub) \
-                            and isinstance(prev.value.args[0].right, ast.Constant) and prev.value.args[0].right.value >= NEED['read_int']:
-                        nvar = unparse(prev.value.args[0].left)
-                        ens = [x for x in walk_no_nested(f) if isinstance(x, ast.Call) and unparse(x.func) == 'self.ensure_read' and x.args and unparse(x.args[0]) == nvar and x.lineno < call.lineno]
-                        guards = [x for x in walk_no_nested(f) if isinstance(x, ast.If) and isinstance(x.test, ast.Compare) and unparse(x.test.left) == nvar and isinstance(x.test.ops[0], ast.Lt) and isinstance(x.test.comparators[0], ast.Constant)
-                                  and x.test.comparators[0].value >= prev.value.args[0].right.value and isinstance(x.body[-1], ast.Raise) and x.lineno < call.lineno]
-                        if ens and guards:
-                            return True
-        return False
+        return id(call) in framing['covered'] and id(call) not in uncovered
     ea = EscapeAnalysis(repo, cg, partial_sites, skip_func=skip, total_here=TOTAL_HERE, edge_filter=edge_filter)
     rep.extra['total_here_exemptions_used'] = sorted('%s | %s | %s' % k for k in ea.used_exemptions)
 
@@ -291,5 +387,16 @@ def run(repo, rep, tier):
     rep.extra['loop_classes'] = {k: len(v) for k, v in classes.items()}
     rep.samples.append({'rule': 'loops', 'classes': {k: v[:4] for k, v in classes.items()}})
     rep.floor('loops', 'loops classified in the network modules', nloops, 20)
+    # ---- fool clause: packet framing (computed above, before the escape analysis that uses it)
+    rep.floor('framing', 'consuming socket reads accounted in read_packet (over all paths)', framing['reads'], 8)
+    seen_bad = set()
+    for n, msg in framing['bad']:
+        if id(n) in seen_bad:
+            continue
+        seen_bad.add(id(n))
+        rep.check('framing', 'socket read covered by ensure_read', False, n, 'packet framing: %s -- a short read leaves bytes of this packet in the stream and the next packet of a well-formed peer is misparsed (audit ends without a report)' % msg)
+    if not framing['bad']:
+        rep.ob('framing', 'every consuming socket read in read_packet is covered by a preceding ensure_read on every path (%d paths, %d reads)' % (framing['paths'], framing['reads']), True)
+    rep.samples.append({'rule': 'framing', 'paths': framing['paths'], 'reads': framing['reads']})
     rep.note('observation: SSH_Socket.ensure_read loops until a peer-chosen byte count (up to 2^32-1) has arrived; each iteration consumes at least one byte or ends with a timeout/close, so it is bounded by size x timeout, not by a byte cap')
     rep.assumptions = ['partial-operation table and the total-here table are hand-confirmed (see TOTAL_HERE reasons in /verif/props/c09.py)', 'resolver over-approximation can only add escapes', 'OS-level errors not driven by peer bytes (EMFILE, resolver failures after a successful first resolution) are outside the table']
